@@ -113,6 +113,9 @@ func (a ammW) ExitPoolEst(ctx sdk.Context, poolId uint64, shareIn sdkmath.Int, o
 	return sdk.Coins{sdk.NewCoin(outDenom, a.est)}, sdkmath.LegacyZeroDec(), nil
 }
 
+// lockedPosition: the explicit position's shares are still under the commitment lock (set before setup)
+var lockedPosition bool
+
 type state struct {
 	env                *wire.Env
 	T, restLp, posLp   sdkmath.Int // amm total shares, other positions' LP, owner position's LP
@@ -226,7 +229,11 @@ func setup(withPosition bool) *state {
 		env.Lev.SetPositionCount(ctx, 1)
 		s.count++
 		c := env.Comm.GetCommitments(ctx, p.GetPositionAddress())
-		c.AddCommittedTokens(share, s.posLp, 0)
+		unlock := uint64(0)
+		if lockedPosition {
+			unlock = now + 3600 // the one-hour lock of an oracle-pool join, not yet expired
+		}
+		c.AddCommittedTokens(share, s.posLp, unlock)
 		env.Comm.SetCommitments(ctx, c)
 		env.Stable.SetDebt(ctx, sstypes.Debt{Address: p.GetPositionAddress().String(), Borrowed: s.debt, InterestStacked: sdkmath.ZeroInt(), InterestPaid: sdkmath.ZeroInt(),
 			BorrowTime: now, LastInterestCalcTime: now, LastInterestCalcBlock: 100})
@@ -479,4 +486,24 @@ func H_Open_Consolidate() {
 func SetupTwoPositions() *wire.Env {
 	s, _, _ := setupTwo()
 	return s.env
+}
+
+// the owner's close while the position's shares are still under the one-hour commitment lock (whatever the
+// position's health): only a real liquidation may override the lock
+//
+//vrf:cover refused
+//vrf:bound 1 existing position whose committed shares are all under an unexpired lock; owner's MsgClose with a symbolic LP amount; exit estimate (health) symbolic
+//vrf:max-paths 3000
+func H_Close_ByOwner_WhileLocked() {
+	lockedPosition = true
+	s := setup(true)
+	env, ctx := s.env, s.env.Ctx
+	amt := vrf.Int("closeLp")
+	_, err := env.Lev.Close(ctx, &levtypes.MsgClose{Creator: owner.String(), Id: 1, LpAmount: amt})
+	if err != nil {
+		vrf.Cover("refused")
+		return // failed transaction: rolled back by baseapp
+	}
+	cm := env.Comm.GetCommitments(ctx, levtypes.GetPositionAddress(1))
+	vrf.Assert(cm.GetCommittedAmountForDenom(share).Equal(s.posLp), "C12: shares under an unexpired lock are not withdrawn by their owner's close, healthy or not (only a liquidation overrides the lock)")
 }
